@@ -295,6 +295,27 @@ def swapped_arguments(prog, mi):
     for m in prog.modules.values():
         for n, f in m.functions.items():
             callees.setdefault(n, []).append((f, False))
+    # self.method(a, b): the method of the class (or of a base class in the program)
+    for ci in prog.classes.values():
+        if ci.mod is not mi:
+            continue
+        for mname, m in list(ci.methods.items()) + list(ci.getters.items()) + list(ci.setters.items()):
+            for call in [c for c in ast.walk(m) if isinstance(c, ast.Call) and isinstance(c.func, ast.Attribute) and isinstance(c.func.value, ast.Name)
+                         and c.func.value.id == 'self' and len(c.args) >= 2 and not any(isinstance(a, ast.Starred) for a in c.args)]:
+                owner = prog.find_method(ci, call.func.attr)
+                if not owner or owner[1] is None:
+                    continue
+                callee = owner[1]
+                ps = [a.arg for a in callee.args.posonlyargs + callee.args.args][1:]
+                bound = dict(zip(ps, call.args))
+                for k in call.keywords:
+                    if k.arg:
+                        bound[k.arg] = k.value
+                for p_, a in zip(ps, call.args):
+                    if isinstance(a, ast.Name) and a.id != p_ and a.id in ps:
+                        other = bound.get(a.id)
+                        if other is None or not (isinstance(other, ast.Name) and other.id == a.id):
+                            out.append((call, 'self.' + call.func.attr, a.id, p_))
     for fn in [n for n in ast.walk(mi.tree) if isinstance(n, ast.FunctionDef)]:
         for call in [c for c in ast.walk(fn) if isinstance(c, ast.Call) and isinstance(c.func, ast.Name) and c.func.id in callees]:
             cands = callees[call.func.id]
@@ -654,3 +675,42 @@ def check_sum(run, rule, key, relpath, fn, name, what):
                 run.fail(rule, key + '|scaled:' + nm, relpath, st.lineno, "%s: '%s' is multiplied / divided inside the loop (%s) where the terms of a sum are added" % (what, nm, norm(st)[:50]))
                 ok = False
     return ok
+
+
+def fields_never_written(prog, ci):
+    """[(node, field)]: private fields a pure-Python class reads through self that no class of its hierarchy ever assigns (and no declaration
+    file declares): the read raises AttributeError.  Only for classes whose bases are all in the analysed program or are plain `object`."""
+    if ci.mod.is_cython:
+        return []
+    mro = prog.mro(ci)
+    if prog.external_bases(ci):
+        ext = [b for b in prog.external_bases(ci) if b not in ('object',)]
+        if ext:
+            return []
+    written, declared = set(), set()
+    for c in mro:
+        declared |= set(c.fields)
+        for m in list(c.methods.values()) + list(c.getters.values()) + list(c.setters.values()):
+            for n in ast.walk(m):
+                if isinstance(n, ast.Attribute) and isinstance(n.ctx, (ast.Store, ast.Del)) and isinstance(n.value, ast.Name) and n.value.id == 'self':
+                    written.add(n.attr)
+                elif isinstance(n, ast.Call) and dotted(n.func) == 'setattr' and len(n.args) >= 2 and norm(n.args[0]) == 'self':
+                    if isinstance(n.args[1], ast.Constant):
+                        written.add(n.args[1].value)
+                    else:
+                        return []
+        for st in c.node.body:
+            for t in ast.walk(st):
+                if isinstance(t, ast.Name) and isinstance(t.ctx, ast.Store):
+                    written.add(t.id)                      # class-level attribute
+    out, seen = [], set()
+    for m in list(ci.methods.values()) + list(ci.getters.values()) + list(ci.setters.values()):
+        for n in ast.walk(m):
+            if isinstance(n, ast.Attribute) and isinstance(n.ctx, ast.Load) and isinstance(n.value, ast.Name) and n.value.id == 'self' \
+                    and n.attr.startswith('_') and not n.attr.startswith('__') and n.attr not in written and n.attr not in declared and n.attr not in seen:
+                # a method of the hierarchy?
+                if any(n.attr in c.methods or n.attr in c.getters for c in mro):
+                    continue
+                seen.add(n.attr)
+                out.append((n, n.attr))
+    return out
